@@ -69,6 +69,15 @@ def ctorAdjustments (l : List (Option (Adj α))) : List (Adj α) := l.filterMap 
 /-- `Multiply(x)` for a number `x` -/
 def multiply (x : α) : Adj α := .mul (.const x)
 
+/-- `isinstance(a, Overwrite)` -/
+def isOverwrite (a : Adj α) : Bool :=
+  match a with
+  | .ovr _ => true
+  | .mul _ => false
+
+/-- `l[0]`; Python raises `IndexError` on an empty list, the fallback `d` stands for that case -/
+def headOr {β : Type} (l : List β) (d : β) : β := l.headD d
+
 /-- short-circuit `a and b` when `b` may raise -/
 def andM (a : Bool) (b : Res Bool) : Res Bool := if a then b else pure false
 
